@@ -130,8 +130,12 @@ class FSA:
 
     @staticmethod
     def _defaultify_out_dict(out_dict):
+        # a neighbor with an empty collection of labels is not a neighbor
         return {
-            key: defaultdict(list, copy.deepcopy(value))
+            key: defaultdict(list, {
+                neighbor: copy.deepcopy(labels)
+                for neighbor, labels in value.items() if len(labels) > 0
+            })
             for key, value in out_dict.items()
         }
 
@@ -262,11 +266,15 @@ class FSA:
             # no-op if vertices are already in FSA
             self.add_vertices([tail, head])
 
+            labels = list(label) if elist else [label]
+
+            # no labels, no edges: head does not become a neighbor of tail
+            if len(labels) == 0:
+                continue
+
             if head not in self._out_dict[tail]:
                 self._out_dict[tail][head] = []
                 self._in_dict[head][tail] = []
-
-            labels = list(label) if elist else [label]
 
             for l in labels:
                 if ignore_redundant and l in self._out_dict[tail][head]:
